@@ -23,10 +23,15 @@ def exact_ok(n, vb, l1, l2):
     return vb + n * (g + 1) + comb(n, n // 2).bit_length() + 2 <= 53
 
 
+def PROVED_K(n):
+    """(1+u)^(3n+2) - 1 <= (3n+3) u for u = 2^-53 and n <= 10^6: the bound of theorem C01_rounding_error_bound"""
+    return 3 * n + 3
+
+
 def tol_for(n, row, l1, l2, exact):
     if exact:
         return Fraction(0)
-    return 4 * (n + 2) * U * oq.bernstein2_abs(row, l1, l2)
+    return PROVED_K(n) * U * oq.bernstein2_abs(row, l1, l2)
 
 
 def gen_cases(ctx):
@@ -91,7 +96,7 @@ def judge_points(c, pairs, out):
     for i, row in enumerate(c["rows"]):
         for k, (l1, l2) in enumerate(pairs):
             want = oq.bernstein2(row, l1, l2)
-            allow = 4 * (n + 2) * U * oq.bernstein2_abs(row, l1, l2)
+            allow = PROVED_K(n) * U * oq.bernstein2_abs(row, l1, l2)
             got = out[i][k]
             if not isinstance(got, Fraction):
                 return "non-finite value %r at row %d parameter %d" % (got, i, k)
@@ -164,8 +169,9 @@ def run(ctx):
                coq_multi, HEADER, "chk_eval", judge=judge_multi, nontrivial=nontriv)
     return finish(ctx, "theorems are about the Gallina model of evaluate_multi_{vs,de_casteljau,barycentric}; the literal 55 "
                   "is read from the source; the Fortran evaluator is tied by correspondence only; the rounding bound "
-                  "4(n+2)u*sum|b_j||v_j| is an a-priori allowance validated on the bound stream, not proved; "
+                  "((1+u)^(3n+2)-1) sum|b_j||v_j| is PROVED for the model executed in any arithmetic with relative error u per operation "
+                  "(standard model) that represents integers with odd part < 2^53 exactly; the bound stream uses exactly this allowance; "
                   "overflow/underflow/NaN out of scope",
                   search=search,
-                  unproved=["floating-point rounding bound (validated, not proved)",
-                            "IEEE-754 'exact when representable' is used informally for the running-binomial obligation"])
+                  unproved=["that binary64 satisfies the standard model (relative error 2^-53, exact small-odd-part integers) is an assumption of the rounding theorem; overflow / underflow / NaN are outside it",
+                            "the Fortran evaluator is a different text: the proved allowance is validated on it by the bound stream, not proved for it"])
